@@ -3,7 +3,7 @@ import GateModel.C19.Spec
 /-
 C19 driver.  One case per line:
 
-  addr <mode> <bgSecret> <serverAddr> <remoteAddr> <ipText> <uuid> <propsNil> <props> <connType> <vhostAddr> <hook1> <hook2>
+  addr <mode> <bgSecret> <serverAddr> <remoteAddr> <ipText> <uuid> <propsNil> <props> <connType> <vhostAddr> <hook1> <hook2> <reg>
 
 byte strings hex (`-` empty); <props> = `_` or `name,value,sig;…`; hooks: `-` | id | pre:<hex> | app:<hex> |
 const:<hex> | drop | err.  Model output: `ok <hex of Handshake.ServerAddress>` | `err`.
@@ -77,14 +77,16 @@ def stripPort (s : Bytes) : Option Bytes :=
 
 def step (c : Case) : String × String :=
   match c.op, c.args with
-  | "addr", [mode, bg, srv, rem, ipText, id, nilF, props, ct, vh, h1, h2] =>
+  | "addr", [mode, bg, srv, rem, ipText, id, nilF, props, ct, vh, h1, h2, reg] =>
     match parseMode mode, parseHex bg, parseHex srv, parseHex rem, parseHex ipText, parseHex id, parseProps props,
           parseConnType ct, parseHex vh, parseHook h1, parseHook h2 with
     | some mode, some bg, some srv, some rem, some ipText, some id, some props, some ct, some vh, some h1, some h2 =>
       let e : Env := { mode := mode, bgSecret := bg, serverAddr := srv, remoteAddr := rem, id := id, props := props,
                        propsNil := nilF = "1", connType := ct, vhostAddr := vh,
                        hook1 := h1.fn.map fun f v => match f v with | .ok x => x | .error _ => [],
-                       hook2 := h2.fn }
+                       hook2 := h2.fn,
+                       -- `direct`/`plain`: the ServerInfo itself; `via`: registered while Via routes the backend
+                       viaWrapped := reg = "via" }
       let out := match serverAddress e with
         | .ok a => "ok " ++ toHex a
         | .error _ => "err"
@@ -103,7 +105,7 @@ def step (c : Case) : String × String :=
               let wantProps : Option (List Property) := if want.isEmpty ∧ e.propsNil then none else some want
               if f.host = srv ∧ f.ip = ipText ∧ f.uuid = id ∧ f.props = wantProps then "ok"
               else "viol:forwarding-fields"
-          else if h1.keepsFirst && h2.keepsFirst then
+          else if (reg = "via" || h1.keepsFirst) && h2.keepsFirst then
             match stripPort vh with
             | none => "-"
             | some sa =>
